@@ -890,10 +890,10 @@ func xrefStreamLoops(g *core.Graph) (sizing, writing *core.V) {
 		core.Undecided("writeXRefStream: no loop emits fields with encodeInt64")
 	}
 	for _, h := range loopHeads(g) {
-		if h == writing || h.Cond == nil || h.Cond.Expr == nil {
+		if h == writing || h.Cond == nil || loopBound(g, h) == nil {
 			continue
 		}
-		if strings.Contains(core.ExprStr(h.Cond.Expr), "nextRef") && g.Dominates(h, writing) {
+		if (strings.Contains(core.ExprStr(loopBound(g, h)), "nextRef") || strings.Contains(resolveText(g, h, loopBound(g, h), 3), "nextRef")) && g.Dominates(h, writing) {
 			sizing = h
 		}
 	}
@@ -1605,4 +1605,22 @@ func reachSkippingFailures(g *core.Graph, start *core.V, avoid *core.Avoid) map[
 		res[d] = true
 	}
 	return res
+}
+
+// loopBound returns the expression that bounds a counting loop: the header
+// condition of a for loop, or the operand of a range-over-integer loop
+// (for i := range w.nextRef).
+func loopBound(g *core.Graph, h *core.V) ast.Expr {
+	if h == nil || h.Cond == nil {
+		return nil
+	}
+	if h.Cond.Expr != nil {
+		return h.Cond.Expr
+	}
+	if rs := h.Cond.Range; rs != nil {
+		if b, ok := g.Info.TypeOf(rs.X).Underlying().(*types.Basic); ok && b.Info()&types.IsInteger != 0 {
+			return rs.X
+		}
+	}
+	return nil
 }
